@@ -1344,8 +1344,8 @@ func (t *TBtree) flushTree(cleanupPercentageHint float32, forceSync bool, forceC
 		// prevent discarding data referenced by opened snapshots
 		discardableNLogOffset := actualNewMinOffset
 		for _, snap := range t.snapshots {
-			if snap.root.minOffset() < discardableNLogOffset {
-				discardableNLogOffset = snap.root.minOffset()
+			if snap.pinnedMinOff < discardableNLogOffset {
+				discardableNLogOffset = snap.pinnedMinOff
 			}
 		}
 
@@ -2029,7 +2029,7 @@ func (t *TBtree) SnapshotMustIncludeTsWithRenewalPeriod(ts uint64, renewalPeriod
 }
 
 func (t *TBtree) newSnapshot(snapshotID uint64, root node) *Snapshot {
-	return &Snapshot{
+	snapshot := &Snapshot{
 		t:       t,
 		id:      snapshotID,
 		ts:      root.ts() + 1,
@@ -2037,6 +2037,12 @@ func (t *TBtree) newSnapshot(snapshotID uint64, root node) *Snapshot {
 		readers: make(map[int]io.Closer),
 		_buf:    make([]byte, t.maxNodeSize),
 	}
+
+	if !root.mutated() {
+		snapshot.pinnedMinOff = root.minOffset()
+	}
+
+	return snapshot
 }
 
 func (t *TBtree) snapshotClosed(snapshot *Snapshot) error {
